@@ -436,7 +436,7 @@ def underline_in_box(prog, rep):
     me = ("param", 1, "self")
     ul = ("field", ("field", me, sf["font"]), ff["underline"])
     try:
-        summs = Paths(prog, inline=lambda g: prog.is_new(g)).of(ms)
+        summs = Paths(prog, inline=lambda g: prog.is_new(g) or "::DecorationColor" in g.path).of(ms)   # is_none() & co. are variant tests
     except Unsupported as e:
         rep.check(False, "R02.8", "measure_string:underline", "cannot summarise measure_string: %s" % e, status="undecided", at=ms.span, fn=ms.path)
         return
